@@ -26,7 +26,8 @@ from common import InfraError
 MANIFEST = {
     "text": "Kernel-checked theorems that the model of search_sorted finds every declared name at its own index and "
             "no undeclared one, for every strictly sorted NUL-free table of any size (search_complete, search_sound, "
-            "search_undeclared) and that Python's sort order on ASCII identifiers is the byte order strncmp uses; "
+            "search_undeclared; the loop condition, midpoint, tests and interval updates inside the model are regenerated "
+            "from parse_c_type.c on every run) and that Python's sort order on ASCII identifiers is the byte order strncmp uses; "
             "the model is tied to the code by running the repo's own search_sorted (compiled unmodified) and real "
             "generated modules against it on random identifier sets.",
     "note": "Trusted: Lean kernel; glibc strncmp; the correspondence harness; int overflow of left+right (> 2^30 entries) "
@@ -40,6 +41,14 @@ RULE = ("tables of 1..40 distinct identifiers built from shared stems (prefix-of
         "a case is non-trivial when the table has >= 2 names sharing a prefix with the query; "
         "distinct = distinct (table, query) pairs")
 ASSUMPTIONS = ["strncmp/strlen of glibc", "table sizes < 2^30 (int arithmetic of left+right not modelled)"]
+
+sys.path.insert(0, os.path.join(common.VERIF, "translate"))
+
+
+def translators(ctx):
+    import search_sorted
+    return [search_sorted.translator]
+
 
 ALPHA = "abAB_01zZ"
 KEYWORDS = set("""auto break case char const continue default do double else enum extern float for goto if
@@ -114,16 +123,67 @@ def impl_search(lib, names, q):
     return lib.verif_search_sorted(arr, len(names), b + b"Zz", len(b))
 
 
+def impl_search_all(ctx, work):
+    """Run the compiled search_sorted on every (table, queries) item in a forked child, so that a
+    non-terminating or crashing loop is a reported failing input instead of a hung / dead check.
+    Returns a list of result lists (None for the item in flight when the child died or hung)."""
+    import json
+    import select
+    import signal
+    rfd, wfd = os.pipe()
+    pid = os.fork()
+    if pid == 0:
+        try:
+            os.close(rfd)
+            lib = load_wrapper(ctx)
+            with os.fdopen(wfd, "w") as w:
+                for names, queries in work:
+                    w.write(json.dumps([impl_search(lib, names, q) for q in queries]) + "\n")
+                    w.flush()
+        finally:
+            os._exit(0)
+    os.close(wfd)
+    out, buf = [], b""
+    deadline_per_item = 20.0
+    alive = True
+    while len(out) < len(work) and alive:
+        r, _, _ = select.select([rfd], [], [], deadline_per_item)
+        if not r:
+            os.kill(pid, signal.SIGKILL)
+            out.append("hang")
+            alive = False
+            break
+        chunk = os.read(rfd, 1 << 16)
+        if not chunk:
+            out.append("died")
+            alive = False
+            break
+        buf += chunk
+        while b"\n" in buf:
+            line, buf = buf.split(b"\n", 1)
+            out.append(json.loads(line))
+    os.close(rfd)
+    os.waitpid(pid, 0)
+    return out
+
+
 def part_a(ctx, ntables, oracle_only=False):
-    lib = load_wrapper(ctx)
-    lines, expect = [], []
+    work = []
     for _ in range(ntables):
         names = gen_names(ctx.rng, ctx.rng.randint(1, 40))
-        queries = list(names) + near_misses(ctx.rng, names, 12)
+        work.append((names, list(names) + near_misses(ctx.rng, names, 12)))
+    results = impl_search_all(ctx, work)
+    lines, expect = [], []
+    for (names, queries), res in zip(work, results):
+        if res in ("hang", "died"):
+            case = {"part": "A", "table": names, "query": queries[0], "queries": queries}
+            ctx.case((tuple(names), "liveness"), sample=case)
+            ctx.fail(case, "search_sorted %s on this table (one of the listed queries)" %
+                     ("does not terminate" if res == "hang" else "crashed the process"))
+            break
         lines.append("table " + " ".join(hx(n) for n in names))
         expect.append(None)
-        for q in queries:
-            got = impl_search(lib, names, q)
+        for q, got in zip(queries, res):
             want = names.index(q) if q in names else -1
             case = {"part": "A", "table": names, "query": q}
             ctx.case((tuple(names), q) if shares_prefix(names, q) else None, sample=case)
@@ -211,48 +271,109 @@ def check_sorted(ctx, d, tabs, mode):
                 break
 
 
-def lookup_all(ctx, d, ffi, lib, mode):
-    """Property oracle on the real implementation: each declared name resolves to its own entry,
-    near-miss undeclared names are not found."""
-    err = ffi.error
-
-    def check(kind, name, declared, fn, want):
-        case = {"part": "B", "mode": mode, "kind": kind, "name": name, "declared": declared, "cdef": d["cdef"]}
-        allnames = d[{"const": "consts", "const-lib": "consts", "const-arraylen": "consts", "typedef": "types",
-                      "struct": "stags", "enum": "etags"}[kind]]
-        ctx.case((mode, kind, tuple(allnames), name) if shares_prefix(allnames, name) else None, sample=None)
-        ctx.count("B:%s:%s" % (kind, "declared" if declared else "undeclared"))
+def forked(fn, timeout=60.0):
+    """Run fn() in a forked child and return its JSON-able result; "hang" / "died" when the child does not
+    finish (an implementation that loops forever or crashes must become a failing input, not a dead check)."""
+    import json
+    import select
+    import signal
+    rfd, wfd = os.pipe()
+    pid = os.fork()
+    if pid == 0:
         try:
-            got = fn()
-            found = True
-        except (err, AttributeError):
-            got, found = None, False
-        if declared and (not found or got != want):
-            ctx.fail(case, "declared name not resolved to its own entry: got %r, want %r" % (got, want))
-        if not declared and found:
-            ctx.fail(case, "undeclared name was found: %r" % (got,))
-        return found
+            os.close(rfd)
+            with os.fdopen(wfd, "w") as w:
+                w.write(json.dumps(fn()))
+        finally:
+            os._exit(0)
+    os.close(wfd)
+    buf = b""
+    res = None
+    while True:
+        r, _, _ = select.select([rfd], [], [], timeout)
+        if not r:
+            os.kill(pid, signal.SIGKILL)
+            res = "hang"
+            break
+        chunk = os.read(rfd, 1 << 16)
+        if not chunk:
+            break
+        buf += chunk
+    os.close(rfd)
+    os.waitpid(pid, 0)
+    if res is None:
+        try:
+            res = json.loads(buf)
+        except ValueError:
+            res = "died"
+    return res
 
-    res = []
-    for kind, key, mk in (
-            ("const", "consts", lambda n: (lambda: ffi.integer_const(n))),
-            ("const-lib", "consts", lambda n: (lambda: getattr(lib, n))),
-            ("const-arraylen", "consts", lambda n: (lambda: ffi.sizeof(ffi.typeof("char[%s]" % n)))),
-            ("typedef", "types", lambda n: (lambda: ffi.sizeof(ffi.typeof(n)) // 4 - 1)),
-            ("struct", "stags", lambda n: (lambda: ffi.sizeof(ffi.typeof("struct " + n)) - 1)),
-            ("enum", "etags", lambda n: (lambda: int(ffi.cast("enum " + n, 0)) * 0 + list(ffi.typeof("enum " + n).elements)[0] - 5))):
+
+def lookup_plan(ctx, d, has_lib):
+    """(kind, name, declared, want) for every declared name and for near-miss undeclared names."""
+    plan = []
+    for kind, key in (("const", "consts"), ("const-lib", "consts"), ("const-arraylen", "consts"),
+                      ("typedef", "types"), ("struct", "stags"), ("enum", "etags")):
         names = d[key]
-        if lib is None and kind == "const-lib":
+        if not has_lib and kind == "const-lib":
             continue
         for i, n in enumerate(names):
-            want = i + 1000 if kind.startswith("const") else i
-            res.append((kind, n, check(kind, n, True, mk(n), want)))
+            plan.append((kind, n, True, i + 1000 if kind.startswith("const") else i))
         for n in near_misses(ctx.rng, names, 8):
             if key == "consts" and (n in d["types"] or n.startswith("ENUMV_")):
                 continue
             if key == "types" and not n.startswith("T"):
                 continue
-            res.append((kind, n, check(kind, n, False, mk(n), None)))
+            plan.append((kind, n, False, None))
+    return plan
+
+
+def lookup_run(plan, ffi, lib):
+    """Executed in the forked child: the raw observations."""
+    err = ffi.error
+    fns = {
+        "const": lambda n: ffi.integer_const(n),
+        "const-lib": lambda n: getattr(lib, n),
+        "const-arraylen": lambda n: ffi.sizeof(ffi.typeof("char[%s]" % n)),
+        "typedef": lambda n: ffi.sizeof(ffi.typeof(n)) // 4 - 1,
+        "struct": lambda n: ffi.sizeof(ffi.typeof("struct " + n)) - 1,
+        "enum": lambda n: list(ffi.typeof("enum " + n).elements)[0] - 5,
+    }
+    out = []
+    for kind, name, declared, want in plan:
+        try:
+            got = fns[kind](name)
+            found = True
+        except (err, AttributeError):
+            got, found = None, False
+        out.append([found, got])
+    return out
+
+
+def lookup_all(ctx, d, ffi, lib, mode):
+    """Property oracle on the real implementation: each declared name resolves to its own entry,
+    near-miss undeclared names are not found."""
+    plan = lookup_plan(ctx, d, lib is not None)
+    obs = forked(lambda: lookup_run(plan, ffi, lib))
+    keyof = {"const": "consts", "const-lib": "consts", "const-arraylen": "consts", "typedef": "types",
+             "struct": "stags", "enum": "etags"}
+    if obs in ("hang", "died"):
+        case = {"part": "B", "mode": mode, "kind": "liveness", "name": plan[0][1], "declared": True, "cdef": d["cdef"]}
+        ctx.case((mode, "liveness"), sample=None)
+        ctx.fail(case, "a runtime name lookup in the generated module %s" %
+                 ("does not terminate" if obs == "hang" else "crashed the process"))
+        return []
+    res = []
+    for (kind, name, declared, want), (found, got) in zip(plan, obs):
+        case = {"part": "B", "mode": mode, "kind": kind, "name": name, "declared": declared, "cdef": d["cdef"]}
+        allnames = d[keyof[kind]]
+        ctx.case((mode, kind, tuple(allnames), name) if shares_prefix(allnames, name) else None, sample=None)
+        ctx.count("B:%s:%s" % (kind, "declared" if declared else "undeclared"))
+        if declared and (not found or got != want):
+            ctx.fail(case, "declared name not resolved to its own entry: got %r, want %r" % (got, want))
+        if not declared and found:
+            ctx.fail(case, "undeclared name was found: %r" % (got,))
+        res.append((kind, name, found))
     return res
 
 
